@@ -112,7 +112,7 @@ def k1_detect_flags(idx: List[int], npos: int) -> bool:
         if t.startswith('--output-fields'):
             last_of = t
     fields = None if last_of is None else last_of.split(' ')[1:]
-    if fields and '--no-output-fields' in toks:
+    if fields is not None and '--no-output-fields' in toks:     # (bare --output-fields means ALL the original columns)
         return kind == 'exit' and r == 1
     if kind != 'ok':
         return False
